@@ -578,7 +578,15 @@ func genParse(t *rapid.T) Parse {
 		for i := 0; i < n; i++ {
 			ms = append(ms, gen.NthMember(rapid.IntRange(0, gen.ProductSize()-1).Draw(t, "m")))
 		}
-		return Parse{Input: engine.Bytes("[" + strings.Join(ms, ",") + "]")}
+		// insignificant white space (all four JSON kinds) around and inside the array
+		ws := func() string {
+			return rapid.SampledFrom([]string{"", "", " ", "\n", "\r", "\t", "\r\n", " \t\r\n"}).Draw(t, "ws")
+		}
+		return Parse{Input: engine.Bytes(ws() + "[" + ws() + strings.Join(ms, ws()+","+ws()) + ws() + "]" + ws())}
+	}
+	if rapid.IntRange(0, 5).Draw(t, "padded") == 0 {
+		ws := rapid.SampledFrom([]string{" ", "\n", "\r", "\t", "\r\n"}).Draw(t, "ws")
+		return Parse{Input: engine.Bytes(ws + gen.InboundRecord(t) + ws)}
 	}
 	return Parse{Input: engine.Bytes(gen.InboundRecord(t))}
 }
